@@ -56,7 +56,7 @@ Theorem C11_block3_exit_kkt : forall (M : list (list K)) (b : list K),
   wf_mat (length b) M ->
   r_exit (block3 M b) = NormalExit ->
   kkt_tol (block3_tol (length b)) M b (r_x (block3 M b)).
-Proof. exact (block3_exit_kkt OF). Qed.
+Proof. exact (block3_exit_kkt_tree A OF). Qed.
 End AnyOrderedField.
 
 (* termination: the outer loop makes at most max_iter passes (and exactly max_iter when it gives up);
